@@ -38,6 +38,13 @@ class C01System(BuilderSystem):
             st.g.set_resolution(1.0)
         if getattr(self, "hooked", False):
             st.g.add_hook(passive_hook)        # hooks see every move; this one hands the parameters back unchanged
+        if getattr(self, "prefix", None):
+            # a non-initial start: the search begins behind a short fixed history (saves its depth)
+            from ..oracles import lex
+            for op in self.prefix:
+                _, chunks = st.call(op)
+                for c in chunks:
+                    st.machine.feed_words([w for w in lex.executable_words(c.decode().rstrip("\r\n")) if w[0] != "?"])
         if self.bounded:
             # calls that are rejected become part of the history: tracked and emitted position must still agree afterwards
             st.g.set_bounds("axes", (-3, -3, -3), (3, 3, 3))
@@ -218,6 +225,11 @@ def precision_changes(system, places):
     return system
 
 
+def after(system, prefix):
+    system.prefix = prefix
+    return system
+
+
 def debug(system):
     system.debug_log = True
     return system
@@ -237,6 +249,8 @@ def systems(tier):
             ("builder-dp12", C01System("builder-dp12", 12, (0, 0.123456789012, -2.000000123456), tracers=True), 2, None),
             ("builder-debug-logging", debug(C01System("builder-debug-logging", 5, exact)), 2, None),
             ("builder-passive-hook", hooked(C01System("builder-passive-hook", 5, exact)), 2, None),
+            ("builder-relative-after-moves", after(C01System("builder-relative-after-moves", 5, exact, tracers=False),
+                                                   [["move", [], {"x": 1.5, "y": -2, "z": 0.5}], ["rapid", [], {"x": -2}], ["set_distance_mode", ["relative"]]]), 3, None),
             ("builder-with-bystander", with_bystander(C01System("builder-with-bystander", 5, exact)), 2, None),
             ("builder-precision-changed-at-run-time", precision_changes(C01System("builder-precision-changed-at-run-time", 2, (0, 12.3456, -2.71828), tracers=False), (5, 2, 0)), 4, None),
         ]
@@ -251,6 +265,8 @@ def systems(tier):
         ("core-dp5", C01System("core-dp5", 5, exact, cls=GCodeCore), 5, None),
         ("builder-debug-logging", debug(C01System("builder-debug-logging", 5, exact)), 3, None),
         ("builder-passive-hook", hooked(C01System("builder-passive-hook", 5, exact)), 3, None),
+        ("builder-relative-after-moves", after(C01System("builder-relative-after-moves", 5, exact, tracers=True),
+                                               [["move", [], {"x": 1.5, "y": -2, "z": 0.5}], ["rapid", [], {"x": -2}], ["set_distance_mode", ["relative"]]]), 3, None),
         ("builder-with-bystander", with_bystander(C01System("builder-with-bystander", 5, exact)), 3, None),
         ("builder-precision-changed-at-run-time", precision_changes(C01System("builder-precision-changed-at-run-time", 2, (0, 12.3456, -2.71828), tracers=False), (5, 2, 0)), 5, None),
     ]
